@@ -99,12 +99,12 @@ def rule_to_error(ctx):
         raise AnalysisError(f"[C18.1-exception-to-error] _message_from_exception outside the modelled subset: {e}")
 
 
-def rule_from_error(ctx):
+def rule_from_error(ctx, rule_id="C18.2-error-to-exception-never-lost"):
     """Caller side, cell-wise over (URI registered or not, args, kwargs, what the registered constructor does): an exception object is always
     returned -- the registered class when its constructor accepts the payload, else the generic ApplicationError with URI, args, kwargs."""
     from ..core.tiny import Tiny, Sym, TinyRaise
     import itertools
-    ctx.rule("C18.2-error-to-exception-never-lost")
+    ctx.rule(rule_id)
     fn = ctx.program.func(f"{BASESESSION}._exception_from_message")
     ctx.analysed(fn)
     body = [x for x in fn.node.body if not (isinstance(x, ast.Expr) and isinstance(x.value, ast.Constant))]
@@ -150,7 +150,7 @@ def rule_from_error(ctx):
         ctx.ob(f"_exception_from_message: always returns an exception -- the registered class if its constructor takes the payload, else ApplicationError(URI, *args, **kwargs) "
                f"[{cells} cells]", not probs, "; ".join(sorted(set(probs))[:2]), fn.loc())
     except AnalysisError as e:
-        raise AnalysisError(f"[C18.2-error-to-exception-never-lost] _exception_from_message outside the modelled subset: {e}")
+        raise AnalysisError(f"[{rule_id}] _exception_from_message outside the modelled subset: {e}")
 
 
 def rule_registries(ctx):
